@@ -480,11 +480,14 @@ class Program:
         return ()
 
     # ------------------------------------------------------------------ lookup
-    def find_free(self, segs):
-        """segs: tuple of path segment names (generics stripped).  Longest-suffix match on repo free fns."""
+    def find_free(self, segs, crate=None):
+        """segs: tuple of path segment names (generics stripped).  Longest-suffix match on repo free fns; between equally good
+        matches the one in the caller's crate wins (MIR prints crate-local paths: `field_value` exists in both crates' namespaces)."""
         cands = self.free.get(segs[-1])
         if not cands:
             return None
+        if crate is not None:
+            cands = sorted(cands, key=lambda x: 0 if getattr(x[1], 'crate', None) == crate else 1)
         best = None
         for fsegs, f in cands:
             n = min(len(fsegs), len(segs))
